@@ -313,8 +313,8 @@ impl<'a, 'c, 'cc> Visitor for AggVis<'a, 'c, 'cc> {
                 return Ok(());
             }
         };
-        let public = V::PublicShare::get_decoded_with_param(vdaf, &pb).map_err(|e| e.to_string())?;
-        let shares: Vec<V::InputShare> = (0..n).map(|j| V::InputShare::get_decoded_with_param(&(vdaf, j), &ib[j])).collect::<Result<_, _>>().map_err(|e| e.to_string())?;
+        let Some(public) = crate::wire::honest_decode(ctx, "PublicShare", V::PublicShare::get_decoded_with_param(vdaf, &pb)) else { return Ok(()) };
+        let Some(shares) = crate::wire::honest_decode(ctx, "InputShare", (0..n).map(|j| V::InputShare::get_decoded_with_param(&(vdaf, j), &ib[j])).collect::<Result<Vec<V::InputShare>, _>>()) else { return Ok(()) };
         ctx.fault(&format!("caller_misuse.{what}"));
         ctx.events += 1;
         match what.as_str() {
